@@ -102,6 +102,12 @@ fn run_scenario(sc: &Value) {
     let mut cfg = Config::single();
     cfg.set_event_loop_size(loops).set_max_size(max);
     EventLoops::init(&cfg);
+    // coroutine creations that fail (a stack that cannot be mapped) before any task is submitted: a failed
+    // creation must not use up a worker slot of the pool
+    for _ in 0..sc["bad_spawns"].as_u64().unwrap_or(0) {
+        let r = EventLoops::submit_co(|_, ()| None, Some(usize::MAX / 4), None);
+        rec(json!({"ev": "bad_spawn", "ok": r.is_ok()}));
+    }
     let t_start = Instant::now();
     let stopping = Arc::new(AtomicBool::new(false));
     let mut subs = vec![];
